@@ -92,7 +92,13 @@ def run(tier):
                                     "per cold source: list of (subscribe, unsubscribe) instants from ColdObservable.subscriptions",
                                     "total number of source subscriptions", "arguments of user-callback calls, in order",
                                     "probe variant: a source is opened only after the previous one delivered its terminal"])
-    ck.note("not_compared", ["order of unsubscribe(previous) vs subscribe(next) inside one instant"])
+    ck.note("sync_replay", "every scenario without take / dispose / fault is also replayed untimed: sources that deliver their "
+            "offset-0 events inside subscribe() (hand-driven observables and from_iterable / throw / never), subscribed with "
+            "scheduler=ImmediateScheduler() (re-entrant hand-over) and with the default trampoline; compared on notifications "
+            "in order, order of source subscriptions, open-after-terminal, every terminated source released, the source in "
+            "progress NOT released, callback arguments")
+    ck.note("not_compared", ["order of unsubscribe(previous) vs subscribe(next) inside one instant",
+                             "untimed replay: instants; take() and unbounded counts over synchronous sources (C14)"])
     for g in main[:: max(1, len(main) // 5)][:5]:
         ck.sample({"scn": g[0], "allowed": g[1]})
     ck.assumptions = ["TestScheduler/VirtualTimeScheduler run actions in due order, FIFO at equal instants (C28)",
@@ -116,7 +122,7 @@ replay = sc.seq_generic_replay
 
 META = {
     'technique': 'TLC-enumerated lists of cold source timelines x operator parameters executed in OpsSeq.tla (transducer checked against a closed-form reference and the C10 invariants) and replayed on the real operators on TestScheduler',
-    'level': 'OpsSeq.tla runs every sequential operator (concat, concat_with_iterable, for_in, start_with, repeat, retry, catch in function / iterable / operator / handler form, on_error_resume_next with observables and factories, while_do, do_while) over every bounded list of cold source timelines, counts 0..N and unbounded (cut by take), every dispose instant; TLC checks NoOverlap, InOrder, Continuation (next source opened at the instant the previous one terminated in the continuing way), OutConcat, RepeatCount (exactly n), RetryCount (at most n) and agreement of the step transducer with a closed-form reference on every state, and exports each scenario with its expected notifications and subscription log; every scenario is run on the real library in every call form and must match on notifications, instants, per-source subscription intervals read from ColdObservable.subscriptions, subscription counts and callback arguments. Exhaustive for the stated bounds, plus simulated larger scenarios in the thorough tier.',
+    'level': 'OpsSeq.tla runs every sequential operator (concat, concat_with_iterable, for_in, start_with, repeat, retry, catch in function / iterable / operator / handler form, on_error_resume_next with observables and factories, while_do, do_while) over every bounded list of cold source timelines, counts 0..N and unbounded (cut by take), every dispose instant; TLC checks NoOverlap, InOrder, Continuation (next source opened at the instant the previous one terminated in the continuing way), OutConcat, RepeatCount (exactly n), RetryCount (at most n) and agreement of the step transducer with a closed-form reference on every state, and exports each scenario with its expected notifications and subscription log; every scenario is run on the real library in every call form and must match on notifications, instants, per-source subscription intervals read from ColdObservable.subscriptions, subscription counts and callback arguments; scenarios without take / dispose are additionally replayed untimed with synchronous sources under ImmediateScheduler (inline, re-entrant hand-over) and the default trampoline and must match on notifications, subscription order, open-after-terminal and release. Exhaustive for the stated bounds, plus simulated larger scenarios in the thorough tier.',
     'note': 'TLC 1.8; codec of props/seq_common.py (tokens to values incl. falsy profile, ticks to virtual time, scripted multi-run source, probe wrapper); TestScheduler (C28)',
     'ref': 'DESIGN.md 6 C10, 3.2, App. C',
 }
